@@ -291,15 +291,16 @@ class Gen:
                 if ck == 1:     # unhashable operations: circuits holding them are unhashable too
                     self.flags.add("unhashable-op")
                     self.flags.add("numpy-payload")
+                    key = t.pick((None, "kk"), "kraus.key")
                     return ["kraus", [[[["i", 1], ["i", 0]], [["i", 0], ["i", 0]]],
-                                      [[["i", 0], ["i", 0]], [["i", 0], ["i", 1]]]],
-                            t.pick((None, "kk"), "kraus.key")], False, False
+                                      [[["i", 0], ["i", 0]], [["i", 0], ["i", 1]]]], key], False, key is not None
                 if ck == 2:
                     self.flags.add("unhashable-op")
                     self.flags.add("numpy-payload")
+                    key = t.pick((None, "mk"), "mixed.key")
                     return ["mixedunitary", [[["f", 1, 2], [[["i", 1], ["i", 0]], [["i", 0], ["i", 1]]]],
                                              [["f", 1, 2], [[["i", 0], ["i", 1]], [["i", 1], ["i", 0]]]]],
-                            t.pick((None, "mk"), "mixed.key")], False, False
+                            key], False, key is not None
                 return ["channel", t.pick(("depolarize", "amplitude_damp", "phase_damp", "bit_flip", "phase_flip"),
                                           "channel"), t.pick(PROBS, "p")], False, False
             if k == 8:
